@@ -325,8 +325,62 @@ def same_name_submodules():
     return bad
 
 
+IFACE_BODIES = {
+    "src/other.f90": "module other\n  implicit none\n  type :: t\n    integer :: from_other\n  end type t\nend module other\n",
+    "src/host.f90": ("module host\n  implicit none\n  type :: t\n    integer :: from_host\n  end type t\n  interface gen\n    subroutine body_a(x)\n      use other, only: t\n      type(t) :: x\n"
+                     "    end subroutine body_a\n    subroutine body_b(y)\n      use other\n      type(t) :: y\n    end subroutine body_b\n  end interface gen\n"
+                     "  interface\n    subroutine single(z)\n      use other, only: t\n      type(t) :: z\n    end subroutine single\n  end interface\n"
+                     "contains\n  subroutine plain(w)\n    type(t) :: w\n  end subroutine plain\nend module host\n"),
+}
+BLOCK_TYPE = {
+    "src/m.f90": ("module m\n  implicit none\n  type :: t\n    integer :: from_module\n  end type t\ncontains\n  subroutine p(arg)\n    type(t) :: arg\n    type(t) :: local\n    block\n      type :: t\n"
+                  "        integer :: from_block\n      end type t\n      integer :: i\n      i = 1\n    end block\n  contains\n    subroutine inner(q)\n      type(t) :: q\n    end subroutine inner\n"
+                  "  end subroutine p\nend module m\n"),
+}
+
+
+def interface_body_uses():
+    """a USE statement inside an interface body (of a generic or a plain interface block) imports into that body: its names hide the host's"""
+    proj = realrun.build_project(IFACE_BODIES, proc_internals=True, display=["public", "private", "protected"])
+    mods = {m.name.lower(): m for m in proj.modules}
+    other_t, host_t = _find(mods["other"].types, "t"), _find(mods["host"].types, "t")
+    bad = []
+    gen = _find(mods["host"].interfaces, "gen")
+    bodies = {r.name: r for r in gen.routines}
+    single = [i for i in mods["host"].interfaces if getattr(i, "procedure", None) is not None and i.procedure.name == "single"][0].procedure
+    for nm, proc in list(bodies.items()) + [("single", single)]:
+        a = proc.args[0]
+        if getattr(a, "proto", None) is None or a.proto[0] is not other_t:
+            bad.append(f"host::{nm}: type(t) of the dummy argument resolves to {('text ' + repr(a.proto[0])) if isinstance(getattr(a, 'proto', [None])[0], str) else 'the type t of host'}, "
+                       "the body imports t from module other")
+    w = _find(mods["host"].subroutines, "plain").args[0]
+    if w.proto[0] is not host_t:
+        bad.append("host::plain: type(t) does not resolve to host's own t")
+    return bad
+
+
+def block_local_type():
+    """a type defined inside a BLOCK construct is local to the construct: outside it, in the procedure and its internal procedures, the name still means the host's type"""
+    proj = realrun.build_project(BLOCK_TYPE, proc_internals=True, display=["public", "private", "protected"])
+    m = proj.modules[0]
+    mt = _find(m.types, "t")
+    p = _find(m.subroutines, "p")
+    bad = []
+    for what, v in (("dummy argument arg", p.args[0]), ("local variable local", _find(p.variables, "local")), ("argument q of the internal procedure", p.subroutines[0].args[0])):
+        if v is None or v.proto[0] is not mt:
+            bad.append(f"m::p: type(t) of the {what} does not resolve to the module's type t")
+    if any(getattr(x, "name", "") == "t" for x in p.types):
+        bad.append("m::p lists the BLOCK-local type t among its own types")
+    return bad
+
+
 def search():
     from bounded import c06
+    for fn, files, exp in ((interface_body_uses, IFACE_BODIES, "names imported by a USE inside an interface body are the ones its declarations see"),
+                           (block_local_type, BLOCK_TYPE, "a BLOCK-local type does not shadow the host's type outside the construct")):
+        bad = fn()
+        if bad:
+            return {"confirmed": True, "input": {"files": files}, "actual": bad, "expected": exp, "how": f"bounded search on the real pipeline: {fn.__name__}"}
     bad = renamed_away()
     if bad:
         return {"confirmed": True, "input": {"files": RENAMED}, "actual": bad, "expected": "a renamed entity is visible under its local name only; the scope's own declarations keep their names",
@@ -349,4 +403,4 @@ def search():
 
 
 def count_cases():
-    return sum(1 for _ in cases()) + 3
+    return sum(1 for _ in cases()) + 5
